@@ -3,7 +3,7 @@
 EXTENDS Population, Json
 CONSTANTS Deep, Rounds
 VARIABLES c, n
-Covered(ch) == ~ch.aux /\ ~(ch.ts.k = "chain" /\ ch.ts.of = "select") /\ "nm" \notin DOMAIN ch
+Covered(ch) == ~ch.aux /\ ch.inh # "noents" /\ ~(ch.ts.k = "chain" /\ ch.ts.of = "select") /\ "nm" \notin DOMAIN ch
 Init == c \in {ch \in Choices(Deep) : Covered(ch) /\ Conforming(Valid(ch))} /\ n \in 0..Rounds
 Next == UNCHANGED <<c, n>>
 Emit == PrintT("@@CASE " \o ToJson([choice |-> c, n |-> n, schema |-> Valid(c), pop |-> Pop(Valid(c), n),
